@@ -188,11 +188,25 @@ def generate(tier):
                 if cfg == 'M':
                     continue
                 cases.append(build(sh, list(oo), cfg, 'v'))
+                if combo[1].style == 'n' and combo[1].n > 1:
+                    # the same field names at different positions in the two variants (V0 {f0, f1}, V1 {f1, f0})
+                    with S.naming('rot'):
+                        c = build(sh, list(oo), cfg, 'v')
+                    c.key += '|rot'
+                    cases.append(c)
         if tier != 'quick' and cfg == 'DM':
             for combo in itertools.product([S.Fields('t', 2), S.Fields('n', 2), S.Fields('t', 1)], repeat=3):
                 sh = S.Shape('enum', list(combo))
                 for oo in itertools.product(*[list(variant_options(f, True)) for f in combo]):
                     cases.append(build(sh, list(oo), cfg, 'v'))
+    # field names that differ by the prefixes the templates use for their bindings (x, _x, __x, ...), and raw identifiers
+    from .common import underscorify, rawify
+    named = [x for x in cases if ':n' in x.key or '|n' in x.key]
+    for c in named[::2]:
+        for tr in (underscorify, rawify):
+            r_ = tr(c)
+            if r_:
+                cases.append(r_)
     seen, out = set(), []
     for c in cases:
         if c.key not in seen:
